@@ -620,7 +620,7 @@ func TestCliSan(t *testing.T) {
 	// the real binary in a chroot
 	bin := os.Getenv("HX_DHCPC")
 	if bin == "" {
-		bin = "/verif/.build/psa-dhcpc"
+		bin = BuildDir() + "/psa-dhcpc"
 	}
 	if _, err := os.Stat(bin); err != nil {
 		t.Fatalf("static psa-dhcpc binary missing: %v", err)
